@@ -154,8 +154,12 @@ def _single_target_multi_source(spec):
 
 @matcher('scalar-index-vector-rhs')
 def _m_scalar_index(job, rec, k):
-    return (rec.get('kind') == 'emitted-function-raises' and 'setting an array element with a sequence' in rec.get('what', '')
-            and job.get('vectorize') and _single_target_multi_source(job['spec']))
+    w = rec.get('what', '')
+    # NumPy / Torch wording and the JAX wording (.at[0-d index].set(length-1 vector)) of the same shape error
+    loud = ('setting an array element with a sequence' in w or 'Cannot broadcast to shape with fewer dimensions' in w
+            or 'shape mismatch' in w)
+    return (rec.get('kind') == 'emitted-function-raises' and loud and job.get('vectorize')
+            and _single_target_multi_source(job['spec']))
 
 
 @matcher('parallel-edges-attr-keyerror')
@@ -254,3 +258,13 @@ def _m_scalar_shared_kernel(job, rec, k):
         if len(es) >= 2 and len(types[tuple(spec.nodes[sn].ops)]) == 1:
             return True
     return False
+
+
+@matcher('backprop-scalar-concatenate')
+def _m_backprop(job, rec, k):
+    kw = job.get('compile_kw') or {}
+    if isinstance(kw, str):
+        return False
+    return (kw.get('inplace_vectorfield') is False and rec.get('kind') == 'emitted-function-raises'
+            and ('zero-dimensional arrays cannot be concatenated' in rec.get('what', '')
+                 or 'zero-dimensional' in rec.get('what', '')))
